@@ -53,7 +53,24 @@ def _c02_rule(op, args, impl):
 
 _HNF_RULE = "every integer matrix of the small shapes (1x1 in [-3,3]; 2x2 in [-2,2]; 1x3, 3x1, 2x3, 3x2 in [-1,1]; thorough adds 3x3 and 4x2 in [-1,1] and wider ranges) through hnf_with_u and kernel; then seeded random matrices up to 10x8 with entries up to 2^66 (thorough 2^512): plain, forced rank-deficient (rows = small combinations of r others, shuffled), zero rows/columns, huge multiples; for each a second generating set of the same lattice (unimodular row operations, permutations, appended combinations and zero rows) and unions with random / equal / sub-lattices; tall matrices n > rank for the kernel. Non-trivial: >= 2 rows, >= 2 columns, not all zero; distinct = distinct (op,args)."
 
+def _c13_rule(op, args, impl):
+    try:
+        return abs(int(args[0])) > 3
+    except ValueError:
+        return False
+
+
 INFO = {
+    "C13": {
+        "rule": "every n in [-3, 2^13) (thorough 2^17); Carmichael numbers by Korselt search below 2*10^5 (thorough 5*10^6); published strong pseudoprimes psi_1..psi_8 and others, repeated; scripted all-liar histories (bases 1 and n-1) and liar histories broken by a witness in the last round for composites; scripted and seeded histories for primes up to 2^61-1; Mersenne primes up to 2^607-1, their products, random odd numbers and semiprimes up to 512 bits; the random history (raw RNG chunks) of every run is captured by the hook and replayed into the model. Exhaustive strong-liar counts for odd n below 2^10 (thorough 2^13) on the model. Non-trivial: |n| > 3; distinct = distinct (op,args incl. history).",
+        "rulefn": _c13_rule,
+        "trusted": ["hooked RNG (feature verif-hooks) and the Lean decoding of num-bigint 0.4.4's gen_biguint_below (checked by the correspondence itself: 20 decoded bases per run)",
+                    "reference classification: trial division below 2^32, 12-base deterministic Miller-Rabin below 2^64 (Sorenson-Webster), construction hints above (Mersenne primes, products)"],
+        "gaps": ["the 4^-20 error bound (Rabin-Monier: at most (n-1)/4 strong liars) is not proved; covered by exhaustive liar counting on the model for odd n below the bound and by the acceptance-needs-20-liars check on every accepted composite; these are tests"],
+        "assumptions": [],
+        "level_text": "Theorem for every prime n and every sequence of RNG outputs: the model of is_prime never answers false (one-sided error), plus n <= 1 and even n are rejected and modpow is modular exponentiation; the random history is an explicit argument of the model so 'whatever is drawn' is an ordinary universal quantifier. Model tied to prime.rs by replaying the captured RNG chunks of every run; implementation answers checked against deterministic references. The probabilistic bound is tested, not proved.",
+        "level_note": "Trusted: Lean kernel + 3 standard axioms; Mathlib ZMod/Fermat; RNG hook + decoder; correspondence generator coverage. Partial: the 4^-20 bound is not a theorem (liar counts are exhaustive tests below a bound).",
+    },
     "C02": {
         "rule": _HNF_RULE,
         "rulefn": _c02_rule,
